@@ -207,6 +207,22 @@ def run_property(prop: str, run: Callable[[Ctx], None], src_root: str, tier: str
     elif violations and status == 2:
         status = 1   # a definite violation is still reported
 
+    sweep_res = None
+    if tier == "thorough" and ctx is not None and status == 0:
+        from .sweep import sweep
+        try:
+            sweep_res = sweep(prop, src_root, [f.key for f in ctx.findings],
+                              jobs=int(os.environ.get("DV_JOBS", "8")))
+        except Exception as e:
+            out.append(f"ANALYSIS-ERROR property={prop} rule=sweep - {type(e).__name__}: {e}")
+            status = 2
+        if sweep_res is not None:
+            bad = [r for r in sweep_res if r[1] in ("MISSED", "FALSE-ALARM")]
+            for vid, st, detail in bad:
+                out.append(f"ANALYSIS-ERROR property={prop} rule=sweep - variant {vid}: {st} ({detail}) "
+                           f"- the checker is not sensitive/invariant on this tree")
+                status = 2
+
     wall = time.time() - t0
     if ctx is not None:
         n_inst = sum(r["instances"] for r in ctx.rules.values())
@@ -220,7 +236,7 @@ def run_property(prop: str, run: Callable[[Ctx], None], src_root: str, tier: str
             "property_id": prop, "tier": tier, "seed": seed, "level": "other",
             "coverage": {
                 "explanation": ctx.explanation,
-                "evaluations": max(n_inst, 0),
+                "evaluations": max(n_inst, 0) + (len(sweep_res) if sweep_res else 0),
                 "distinct_nontrivial": nontriv,
                 "rule": "one evaluation = one rule instance (table cell, call site, "
                         "store site, CFG query or enumerated path) found in the current "
@@ -238,6 +254,14 @@ def run_property(prop: str, run: Callable[[Ctx], None], src_root: str, tier: str
                 "analysis_errors": [o for o in out if o.startswith("ANALYSIS-ERROR")],
                 "notes": ctx.info[:80],
                 "exhaustive": False,
+                **({"sensitivity_sweep": {
+                    "variants": len(sweep_res),
+                    "detected": sum(1 for r in sweep_res if r[1] == "detected"),
+                    "neutral_silent": sum(1 for r in sweep_res if r[1] == "silent"),
+                    "refused": sum(1 for r in sweep_res if r[1] == "refused"),
+                    "skipped": sum(1 for r in sweep_res if r[1] == "skipped"),
+                    "failed": [r for r in sweep_res if r[1] in ("MISSED", "FALSE-ALARM")],
+                    "results": [list(r) for r in sweep_res][:80]}} if sweep_res is not None else {}),
             },
             "assumptions": ctx.assumptions,
             "wall_s": round(wall, 3),
@@ -259,6 +283,12 @@ def run_property(prop: str, run: Callable[[Ctx], None], src_root: str, tier: str
             print(line)
         if ctx is not None:
             n_inst = sum(r["instances"] for r in ctx.rules.values())
+            if sweep_res is not None:
+                print(f"{prop} sweep: {len(sweep_res)} variants, "
+                      f"{sum(1 for r in sweep_res if r[1] == 'detected')} detected, "
+                      f"{sum(1 for r in sweep_res if r[1] == 'silent')} neutral silent, "
+                      f"{sum(1 for r in sweep_res if r[1] == 'skipped')} skipped, "
+                      f"{sum(1 for r in sweep_res if r[1] in ('MISSED', 'FALSE-ALARM'))} failed")
             print(f"{prop} [{tier}] rules={len(ctx.rules)} instances={n_inst} "
                   f"findings={len(ctx.findings)} (known={len(known_hit)}, "
                   f"unlisted={len(violations)}) status={status} wall={wall:.2f}s")
